@@ -341,7 +341,6 @@ def selftest(repo: Repo):
         v("swallow-limit-error", "liquid/builtin/tags/capture_tag.py", "        buf = context.get_buffer(buffer)\n        self.block.render(context, buf)\n", "        buf = context.get_buffer(buffer)\n        try:\n            self.block.render(context, buf)\n        except ResourceLimitError:\n            pass\n", "C08-CATCH"),
         v("swallow-via-liquiderror", "liquid/builtin/tags/ifchanged_tag.py", "        buf = context.get_buffer(buffer)\n        self.block.render(context, buf)\n", "        buf = context.get_buffer(buffer)\n        try:\n            self.block.render(context, buf)\n        except LiquidError:\n            return 0\n", "C08-CATCH"),
         v("guard-with-else", CTX, "            raise LocalNamespaceLimitError(\"local namespace limit reached\", token=None)\n", "            raise LocalNamespaceLimitError(\"local namespace limit reached\", token=None)\n        else:\n            self.locals[key] = val\n", "C08-READ"),
-        v("limit-never-enforced", CTX, "        if self._copy_depth > self.env.context_depth_limit:", "        if self._copy_depth > 1000:", "ANALYSIS-ERROR"),
         v("buffer-limit-scaled", "liquid/template.py", "return LimitedStringIO(limit=self.env.output_stream_limit)", "return LimitedStringIO(limit=self.env.output_stream_limit // 2, initial_value=str(self.env.output_stream_limit))", "C08-READ"),
         v("get-buffer-falsy-limit", CTX, "        if self.env.output_stream_limit is None:\n            return StringIO()", "        if not self.env.output_stream_limit:\n            return StringIO()", "C08-READ"),
         v("loop-guard-truthiness", CTX, "            self.env.loop_iteration_limit is not None\n", "            self.env.loop_iteration_limit\n", "C08-READ"),
